@@ -360,6 +360,62 @@ class Unit:
         return [x["id"] for x in self.desc["decls"] if x["parent"] == id]
 
 
+BUILD_SEED = 20260923      # the quick tier's descriptions are the same on every run (vetted on the unchanged tree)
+
+
+def builder_run(seed, num, depth=160, consts=None):
+    """Behaviours of the description builder (spec/PdlBuild.tla, MC_Build): one description per behaviour,
+    every choice drawn by TLC's simulator.  -> list of result records (description + the specification's
+    verdict and supported classes), deduplicated, in a canonical order.  Cached per (spec, seed, num)."""
+    h = hashlib.sha256()
+    for f in sorted(os.listdir(SPEC)):
+        if f.endswith((".tla", ".cfg")) and not f.startswith(("MC_Vectors", "MC_Syntax", "MC_Analyzer", "MC_Compile", "Trace_")):
+            h.update(open(os.path.join(SPEC, f), "rb").read())
+    key = "%s_%d_%d_%d" % (h.hexdigest()[:12], seed, num, depth)
+    cache = os.path.join(WORK, "gen", "build_%s.ndjson" % key)
+    if os.path.exists(cache):
+        return [json.loads(l) for l in open(cache)]
+    lines, stats = tlc("MC_Build", "MC_Build.cfg", {}, workers=4, tag="build", timeout=1800,
+                       simulate="num=%d" % max(1, num // 4), extra=["-depth", str(depth), "-seed", str(seed)])
+    seen = {}
+    for r in parse_tagged(lines, "DESC"):
+        k = json.dumps(r["d"], sort_keys=True)
+        if k not in seen:
+            r["name"] = "g_" + hashlib.sha256(k.encode()).hexdigest()[:8]
+            seen[k] = r
+    out = [seen[k] for k in sorted(seen, key=lambda k: seen[k]["name"])]
+    os.makedirs(os.path.dirname(cache), exist_ok=True)
+    with open(cache + ".tmp", "w") as f:
+        for r in out:
+            f.write(json.dumps(r) + "\n")
+    os.replace(cache + ".tmp", cache)
+    return out
+
+
+def builder_descs(tier, seed, backend="rust"):
+    """descriptions written by the builder machine that the specification accepts and places inside the
+    backend's supported class; quick: a fixed batch, thorough: a larger one plus a batch drawn from VERIF_SEED"""
+    n = int(os.environ.get("VERIF_NGEN", "64" if tier == "quick" else "600"))
+    if n <= 0:
+        return []
+    recs = builder_run(BUILD_SEED, n)
+    if tier == "thorough" and seed != 0:
+        recs = recs + builder_run(seed, n)
+    out, names = [], set()
+    for r in recs:
+        if not (r["accepted"] and r.get(backend)) or r["name"] in names:
+            continue
+        if not any(x["fields"] for x in r["d"]["decls"] if x["kind"] in ("packet", "struct")):
+            continue
+        if os.environ.get("VERIF_ONLY") and os.environ["VERIF_ONLY"] != r["name"]:
+            continue
+        names.add(r["name"])
+        d = json.loads(json.dumps(r["d"]))
+        d["name"] = r["name"]
+        out.append(d)
+    return out
+
+
 def make_units(descs, endians=("little", "big")):
     units = []
     for d in descs:
@@ -1035,7 +1091,7 @@ CODEC_MODES = {
 
 
 def prepare_rust_units(ctx, tier, want=("analyze", "rust")):
-    units = make_units(kit.build(tier))
+    units = make_units(kit.build(tier) + builder_descs(tier, ctx.seed, "rust"))
     compile_units(ctx.driver(), units, list(want))
     bins = build_rust_harness(units)
     return units, bins
@@ -1957,7 +2013,13 @@ def check_c07(ctx):
             jobs.append(dict(d=pos[u.name], type=t, anc="", mode="enc", n=0))
             if not u.decl(t)["parent"]:
                 jobs.append(dict(d=pos[u.name], type=t, anc="", mode="dec", n=0))
+                if u.children(t):
+                    # Java has no "parse as exactly this packet": Parent.fromBytes is decode + specialize.  Its
+                    # acceptance is therefore judged through the API binding (PdlInherit.JavaOutcomes), see below.
+                    jobs.append(dict(d=pos[u.name], type=t, anc="", mode="javaparse", n=0))
     vecs, _ = run_jobs(ctx, units, jobs, rep)
+    java_may_reject = {(v["unit"].name, v["type"], tuple(v["bytes"])) for v in vecs
+                       if v["k"] == "javaparse" and any(o["reject"] for o in v["outcomes"])}
     encs = [v for v in vecs if v["k"] == "enc" and not v["faults"]]
     decs = [v for v in vecs if v["k"] == "dec" and "Unsupported" not in v["faults"] + v["full"]]
 
@@ -2114,6 +2176,11 @@ def check_c07(ctx):
             for y in names:
                 if x < y:
                     if res[x][0] != res[y][0]:
+                        if "java" in (x, y) and not res["java"][0] and (u.name, t, tuple(by)) in java_may_reject:
+                            # a child's constraints match and the child does not parse: Parent.fromBytes throws
+                            # where Parent::decode_full(..) succeeds and .specialize() fails - same outcome
+                            rep.notes["java_dispatch_rejections"] = rep.notes.get("java_dispatch_rejections", 0) + 1
+                            continue
                         rep.violation("C07|%s~%s|%s|%s|acceptance_differs|%s" % (x, y, u.name, t, org.split(":")[0] if val is None else "written"),
                                       {"desc": u.desc, "pdl": u.src, "type": t, "stimulus": {"bytes": hexs(by)}, "origin": org,
                                        "observed": {x: res[x][0], y: res[y][0]}})
@@ -2946,6 +3013,56 @@ def check_c09(ctx):
                     viol("generation_outcome_differs_%s" % be, {"grouped": json.dumps(ga)[:200], "inlined": json.dumps(gb)[:200]})
         if rep.coverage["traces_validated_against_impl"] % 397 == 1:
             rep.sample({"base": name, "variant": r["k"], "pdl": r["src"][:300]})
+    # descriptions written by the builder machine (spec/PdlBuild.tla): accepted, analyzed to the inlined form,
+    # and generating the same code as the inlined form written out by hand
+    brecs = [r for r in builder_run(BUILD_SEED, 64 if ctx.tier == "quick" else 600) if r["accepted"]]
+    if ctx.tier == "thorough":
+        brecs += [r for r in builder_run(ctx.seed, 600) if r["accepted"]]
+    reqs = []
+    for r in brecs:
+        r["d"]["name"] = r["name"]
+        r["analyzed"]["name"] = r["name"]
+        r["src"] = pdl.render(r["d"])
+        hasg = any(x["kind"] == "group" for x in r["d"]["decls"])
+        r["rid"] = len(reqs)
+        reqs.append(dict(rid=len(reqs), name=r["name"] + ".pdl", src=r["src"], want=["analyze"] + (["rust", "python", "cxx"] if hasg else [])))
+        r["rid2"] = None
+        if hasg:
+            r["rid2"] = len(reqs)
+            reqs.append(dict(rid=len(reqs), name=r["name"] + ".pdl", src=pdl.render(r["analyzed"]), want=["analyze", "rust", "python", "cxx"]))
+    res = run_driver(ctx.driver(), reqs, tag="c09b")
+    ngrouped = 0
+    for r in brecs:
+        rep.validated()
+        resp = res.get(r["rid"], {})
+        a = resp.get("analyze", {})
+
+        def bviol(kind, detail):
+            rep.violation("C09|analyzer|%s|builder|%s" % (r["name"], kind),
+                          {"desc": r["d"], "pdl": r["src"], "variant": "builder", "observed": detail, "expected": {"accepted": True}})
+        if "ok" not in a:
+            bviol("rejects_well_formed:" + ",".join("E%d" % c for c in impl_codes(a)) + norm_msg(a.get("panic", "")), a)
+            continue
+        try:
+            got = pdl.ast_to_desc(a["ok"])
+        except Exception as e:  # noqa
+            bviol("analyzed_unmappable", repr(e))
+            continue
+        if decl_set(got) != decl_set(r["analyzed"]):
+            bviol("analyzed_declarations_differ", {"analyzed": got, "expected": r["analyzed"]})
+            continue
+        if r["rid2"] is not None:
+            ngrouped += 1
+            inl = res.get(r["rid2"], {})
+            for be in ("rust", "python", "cxx"):
+                ga, gb = resp.get(be, {}), inl.get(be, {})
+                if "ok" in ga and "ok" in gb:
+                    if ga["ok"] != gb["ok"]:
+                        bviol("generated_%s_differs_from_inlined_form" % be, {"grouped_sha": sha(ga["ok"]), "inlined_sha": sha(gb["ok"])})
+                elif ("ok" in ga) != ("ok" in gb):
+                    bviol("generation_outcome_differs_%s" % be, {"grouped": json.dumps(ga)[:200], "inlined": json.dumps(gb)[:200]})
+    rep.notes["builder_descriptions"] = len(brecs)
+    rep.notes["builder_descriptions_with_groups"] = ngrouped
     # layout / radix: token-level re-layouts of the base descriptions must be accepted too
     dp = os.path.join(ctx.tmp, "ldescs.ndjson")
     write_ndjson(dp, descs)
